@@ -81,6 +81,8 @@ SAFE_BUILTINS: dict[str, Callable] = {
     "len": len, "max": max, "min": min, "ord": ord, "chr": chr, "range": range, "any": any, "all": all, "sorted": sorted,
     "reversed": lambda x: list(reversed(x)), "abs": abs, "int": int, "set": set, "list": list, "tuple": tuple, "bool": bool, "str": str,
     "enumerate": lambda x, start=0: list(enumerate(x, start)), "zip": lambda *a: list(zip(*a)), "sum": sum,
+    "repeat": lambda x, n: [x] * n,  # itertools.repeat with a count
+    "chain": lambda *its: [x for it in its for x in it],  # itertools.chain
 }
 STR_METHODS = {"lower", "upper", "startswith", "endswith", "casefold", "isalpha", "swapcase", "isascii", "isdigit", "isalnum", "isupper", "islower", "strip", "lstrip", "rstrip", "split", "replace", "find", "rfind", "count", "index"}
 LIST_METHODS = {"append", "extend", "pop", "sort", "clear", "insert", "index", "copy"}
